@@ -1,8 +1,15 @@
 /* contracts/ctl.h -- libxcm/ctl/ctl.c, the per-socket control interface, server side (C14).
  * Attached by redeclaration after the real TU (and env/ctl_env.h, which holds the unit's ghost state) were included.
  *
- * Conventions: xv_ctl_j / xv_ctl_i / xv_ctl_p / xv_ctl_reg are ghost indices nobody assigns -- a clause about "the byte
- * at xv_ctl_j" is proved for every offset.  xv_ctl_g_* are ghost constants bound to entry values by a requires clause.
+ * Conventions: xv_ctl_j / xv_ctl_i / xv_ctl_p / xv_ctl_reg (and the prelude's xv_mc) are ghost indices nobody assigns -- a
+ * clause about "the byte at xv_ctl_j" is proved for every offset.  xv_ctl_g_foreign/xv_ctl_g_fev are ghost constants.
+ * Contracts that are also ASSUMED of a callee bind nothing to ghost constants in their requires clauses (the call site
+ * could not establish it); they use __CPROVER_old instead.  Every contract starts with the two clauses that pin the
+ * opaque zero xv_ctl_z (env/ctl_env.h).  All struct fields are read through the XV_FLD accessors (by address, as scalars).
+ *
+ * Call graph and cut:   ctl_process -> process_client -> client_send | client_receive -> process_get_attr -> xcm_attr_get (contract)
+ *                                   -> remove_client                               -> process_get_all_attr -> xcm_attr_get_all (stub) -> add_attr
+ *                                   -> accept_client           ctl_create (create_ux inlined)      ctl_destroy -> remove_client
  */
 #ifndef XV_CTL_H
 #define XV_CTL_H
@@ -96,23 +103,33 @@ __CPROVER_ensures(XV_CTL_ALL_ENTRY_I(XV_MSG_CFMP(response)))
  * Representation invariant CTL_INV: 0..MAX_CLIENTS sessions; the listening descriptor and every session descriptor are
  * non-negative and hold a LIVE xpoll registration of the owning socket's xpoll; the registration ids are pairwise distinct.
  * Nothing is said about is_response_pending / pending_response: every contract holds for ANY previous content. */
-#define CTL_C(ctl, i) ((ctl)->clients[i])
+/* every field is read BY ADDRESS as a scalar (see XV_FLD in env/ctl_env.h): `ctl->clients[1].fd` through a pointer with two
+ * possible targets (ctl_create's return value: NULL or the new object) makes CBMC read all 75 864 bytes of struct ctl */
+#define CTL_NUM(c_) XV_FLD(int, c_, offsetof(struct ctl, num_clients))
+#define CTL_SOCK(c_) XV_FLD(struct xcm_socket *, c_, offsetof(struct ctl, socket))
+#define CTL_SFD(c_) XV_FLD(int, c_, offsetof(struct ctl, server_fd))
+#define CTL_SREG(c_) XV_FLD(int, c_, offsetof(struct ctl, server_fd_reg_id))
+#define CTL_CP(c_, i) ((uint8_t *)(c_) + offsetof(struct ctl, clients) + (i) * sizeof(struct client))   /* address of session i */
+#define CL_FD(cp) XV_FLD(int, cp, offsetof(struct client, fd))
+#define CL_REG(cp) XV_FLD(int, cp, offsetof(struct client, fd_reg_id))
+#define CL_PEND(cp) XV_FLD(bool, cp, offsetof(struct client, is_response_pending))
+#define CL_MSG(cp) ((uint8_t *)(cp) + offsetof(struct client, pending_response))                          /* address of its reply buffer */
 #define CTL_REG_OK(id) ((id) >= 0 && (id) < XV_CTL_REGS && xv_ctl_live[id])
-#define CTL_INV(ctl) ((ctl)->num_clients >= 0 && (ctl)->num_clients <= MAX_CLIENTS && (ctl)->socket->xpoll == xv_ctl_xpoll && \
-    (ctl)->server_fd >= 0 && CTL_REG_OK((ctl)->server_fd_reg_id) && \
-    ((ctl)->num_clients >= 1 ==> (CTL_C(ctl, 0).fd >= 0 && CTL_REG_OK(CTL_C(ctl, 0).fd_reg_id) && CTL_C(ctl, 0).fd_reg_id != (ctl)->server_fd_reg_id)) && \
-    ((ctl)->num_clients >= 2 ==> (CTL_C(ctl, 1).fd >= 0 && CTL_REG_OK(CTL_C(ctl, 1).fd_reg_id) && CTL_C(ctl, 1).fd_reg_id != (ctl)->server_fd_reg_id && \
-                                  CTL_C(ctl, 1).fd_reg_id != CTL_C(ctl, 0).fd_reg_id)))
-#define CTL_MEM(ctl) (__CPROVER_is_fresh(ctl, XV_CTL_SIZEOF(struct ctl)) && __CPROVER_is_fresh((ctl)->socket, sizeof(struct xcm_socket)))
+#define CTL_INV(ctl) (CTL_NUM(ctl) >= 0 && CTL_NUM(ctl) <= MAX_CLIENTS && CTL_SOCK(ctl)->xpoll == xv_ctl_xpoll && \
+    CTL_SFD(ctl) >= 0 && CTL_REG_OK(CTL_SREG(ctl)) && \
+    (CTL_NUM(ctl) >= 1 ==> (CL_FD(CTL_CP(ctl, 0)) >= 0 && CTL_REG_OK(CL_REG(CTL_CP(ctl, 0))) && CL_REG(CTL_CP(ctl, 0)) != CTL_SREG(ctl))) && \
+    (CTL_NUM(ctl) >= 2 ==> (CL_FD(CTL_CP(ctl, 1)) >= 0 && CTL_REG_OK(CL_REG(CTL_CP(ctl, 1))) && CL_REG(CTL_CP(ctl, 1)) != CTL_SREG(ctl) && \
+                                  CL_REG(CTL_CP(ctl, 1)) != CL_REG(CTL_CP(ctl, 0)))))
+#define CTL_MEM(c_) (__CPROVER_is_fresh(c_, XV_CTL_SIZEOF(struct ctl)) && __CPROVER_is_fresh(CTL_SOCK(c_), sizeof(struct xcm_socket)))
 /* the header of struct ctl is never written after ctl_create */
-#define CTL_HDR_SAME(ctl) ((ctl)->socket == __CPROVER_old((ctl)->socket) && (ctl)->server_fd == __CPROVER_old((ctl)->server_fd) && \
-                           (ctl)->server_fd_reg_id == __CPROVER_old((ctl)->server_fd_reg_id))
+#define CTL_HDR_SAME(ctl) (CTL_SOCK(ctl) == __CPROVER_old(CTL_SOCK(ctl)) && CTL_SFD(ctl) == __CPROVER_old(CTL_SFD(ctl)) && \
+                           CTL_SREG(ctl) == __CPROVER_old(CTL_SREG(ctl)))
 /* PASSIVITY towards the data path, at the xpoll.  xv_ctl_reg is an arbitrary registration id; the ghost constant
  * xv_ctl_g_foreign says "it exists, is not one of this ctl's, and has event mask xv_ctl_g_fev".  CTL_FOREIGN is required and
  * ensured by every function: a registration of the data path is never deleted, modified or taken over. */
 _Bool xv_ctl_g_foreign; int xv_ctl_g_fev;
-#define CTL_OWNS(ctl, r) ((r) == (ctl)->server_fd_reg_id || ((ctl)->num_clients >= 1 && (r) == CTL_C(ctl, 0).fd_reg_id) || \
-                          ((ctl)->num_clients >= 2 && (r) == CTL_C(ctl, 1).fd_reg_id))
+#define CTL_OWNS(ctl, r) ((r) == CTL_SREG(ctl) || (CTL_NUM(ctl) >= 1 && (r) == CL_REG(CTL_CP(ctl, 0))) || \
+                          (CTL_NUM(ctl) >= 2 && (r) == CL_REG(CTL_CP(ctl, 1))))
 #define CTL_FOREIGN(ctl) (xv_ctl_g_foreign ==> (xv_ctl_reg >= 0 && xv_ctl_reg < XV_CTL_REGS && xv_ctl_live[xv_ctl_reg] && \
                           xv_ctl_ev[xv_ctl_reg] == xv_ctl_g_fev && !CTL_OWNS(ctl, xv_ctl_reg)))
 /* ghost state every session-level function may write */
@@ -122,10 +139,10 @@ _Bool xv_ctl_g_foreign; int xv_ctl_g_fev;
  * split of the disjunction below; every offset into the 76 KB struct ctl is then a constant); where the contract is
  * ASSUMED of a callee (ctl_process -> process_client) the general form is what the call site has to establish. */
 #ifdef XV_CTL_SLOT
-#define CTL_SESSION(client, ctl) ((ctl)->num_clients > XV_CTL_SLOT && __CPROVER_pointer_equals((client), &CTL_C(ctl, XV_CTL_SLOT)))
+#define CTL_SESSION(client, ctl) (CTL_NUM(ctl) > XV_CTL_SLOT && __CPROVER_pointer_equals((client), CTL_CP(ctl, XV_CTL_SLOT)))
 #else
-#define CTL_SESSION(client, ctl) (((ctl)->num_clients >= 1 && __CPROVER_pointer_equals((client), &CTL_C(ctl, 0))) || \
-                                  ((ctl)->num_clients >= 2 && __CPROVER_pointer_equals((client), &CTL_C(ctl, 1))))
+#define CTL_SESSION(client, ctl) ((CTL_NUM(ctl) >= 1 && __CPROVER_pointer_equals((client), CTL_CP(ctl, 0))) || \
+                                  (CTL_NUM(ctl) >= 2 && __CPROVER_pointer_equals((client), CTL_CP(ctl, 1))))
 #endif
 #define CTL_SAME(x) ((x) == __CPROVER_old(x))
 #define CTL_INC(x) ((x) == __CPROVER_old(x) + 1)
@@ -137,15 +154,15 @@ static int client_send(struct client *client, struct ctl *ctl)
 __CPROVER_requires(XV_CTL_Z_LO)
 __CPROVER_requires(XV_CTL_Z_HI)
 __CPROVER_requires(CTL_MEM(ctl) && CTL_INV(ctl) && CTL_SESSION(client, ctl) && CTL_FOREIGN(ctl))
-__CPROVER_assigns(CTL_EP_GHOSTS, CS_GHOSTS, client->is_response_pending)
+__CPROVER_assigns(CTL_EP_GHOSTS, CS_GHOSTS, CL_PEND(client))
 __CPROVER_ensures((__CPROVER_return_value == 0 || __CPROVER_return_value == -1) && CTL_INV(ctl) && CTL_FOREIGN(ctl))
 /* PO[C14] client_send.sends_the_pending_reply */
-__CPROVER_ensures(CTL_INC(xv_ctl_send_calls) && xv_ctl_send_fd == client->fd && xv_ctl_send_len == CTL_MSG_SIZE && xv_ctl_send_buf == &client->pending_response && \
-                  (xv_ctl_j < CTL_MSG_SIZE ==> xv_ctl_send_j == ((const uint8_t *)&client->pending_response)[xv_ctl_j]))
+__CPROVER_ensures(CTL_INC(xv_ctl_send_calls) && xv_ctl_send_fd == CL_FD(client) && xv_ctl_send_len == CTL_MSG_SIZE && xv_ctl_send_buf == CL_MSG(client) && \
+                  (xv_ctl_j < CTL_MSG_SIZE ==> xv_ctl_send_j == ((const uint8_t *)CL_MSG(client))[xv_ctl_j]))
 /* PO[C14] client_send.outcome */
 __CPROVER_ensures(xv_ctl_send_rc >= 0 \
-        ? (__CPROVER_return_value == 0 && !client->is_response_pending && xv_ctl_ev[client->fd_reg_id] == EPOLLIN) \
-        : (client->is_response_pending == __CPROVER_old(client->is_response_pending) && CTL_SAME(xv_ctl_ep_ops) && \
+        ? (__CPROVER_return_value == 0 && !CL_PEND(client) && xv_ctl_ev[CL_REG(client)] == EPOLLIN) \
+        : (CL_PEND(client) == __CPROVER_old(CL_PEND(client)) && CTL_SAME(xv_ctl_ep_ops) && \
            __CPROVER_return_value == (xv_ctl_send_errno == EAGAIN ? 0 : -1)))
 ;
 
@@ -155,14 +172,14 @@ __CPROVER_ensures(xv_ctl_send_rc >= 0 \
 #define CR_GHOSTS xv_ctl_rd, xv_ctl_rcv, xv_ctl_get, XV_CTL_ALL_GHOSTS
 #define CR_FULL (xv_ctl_readable && xv_ctl_recv_rc == (long)CTL_MSG_SIZE)
 #define CR_NO_ATTR_CALL (CTL_SAME(xv_ctl_get_calls) && CTL_SAME(xv_ctl_all_calls))
-#define CR_UNTOUCHED(client) ((client)->is_response_pending == __CPROVER_old((client)->is_response_pending) && CR_NO_ATTR_CALL)
+#define CR_UNTOUCHED(client) (CL_PEND(client) == __CPROVER_old(CL_PEND(client)) && CR_NO_ATTR_CALL)
 static int client_receive(struct client *client, struct ctl *ctl)
 __CPROVER_requires(XV_CTL_Z_LO)
 __CPROVER_requires(XV_CTL_Z_HI)
-__CPROVER_requires(CTL_MEM(ctl) && CTL_INV(ctl) && CTL_SESSION(client, ctl) && CTL_FOREIGN(ctl) && !client->is_response_pending)
-__CPROVER_assigns(CTL_EP_GHOSTS, CR_GHOSTS, client->is_response_pending, __CPROVER_object_upto(&client->pending_response, XV_CTL_SIZEOF(client->pending_response)))
+__CPROVER_requires(CTL_MEM(ctl) && CTL_INV(ctl) && CTL_SESSION(client, ctl) && CTL_FOREIGN(ctl) && !CL_PEND(client))
+__CPROVER_assigns(CTL_EP_GHOSTS, CR_GHOSTS, CL_PEND(client), __CPROVER_object_upto(CL_MSG(client), XV_CTL_SIZEOF(struct ctl_proto_msg)))
 __CPROVER_ensures((__CPROVER_return_value == 0 || __CPROVER_return_value == -1) && CTL_INV(ctl) && CTL_FOREIGN(ctl))
-__CPROVER_ensures(CTL_INC(xv_ctl_readable_calls) && (xv_ctl_readable ? (CTL_INC(xv_ctl_recv_calls) && xv_ctl_recv_fd == client->fd) : CTL_SAME(xv_ctl_recv_calls)))
+__CPROVER_ensures(CTL_INC(xv_ctl_readable_calls) && (xv_ctl_readable ? (CTL_INC(xv_ctl_recv_calls) && xv_ctl_recv_fd == CL_FD(client)) : CTL_SAME(xv_ctl_recv_calls)))
 /* PO[C14] client_receive.nothing_to_read */
 __CPROVER_ensures((!xv_ctl_readable || (xv_ctl_recv_rc == -1 && xv_ctl_recv_errno == EAGAIN)) ==> \
                   (__CPROVER_return_value == 0 && CR_UNTOUCHED(client) && CTL_SAME(xv_ctl_ep_ops)))
@@ -171,27 +188,27 @@ __CPROVER_ensures((xv_ctl_readable && ((xv_ctl_recv_rc == -1 && xv_ctl_recv_errn
                   (__CPROVER_return_value == -1 && CR_UNTOUCHED(client) && CTL_SAME(xv_ctl_ep_ops)))
 /* PO[C14] client_receive.unknown_type_is_dropped */
 __CPROVER_ensures((CR_FULL && xv_ctl_req_type != ctl_proto_type_get_attr_req && xv_ctl_req_type != ctl_proto_type_get_all_attr_req) ==> \
-                  (__CPROVER_return_value == -1 && !client->is_response_pending && CR_NO_ATTR_CALL))
+                  (__CPROVER_return_value == -1 && !CL_PEND(client) && CR_NO_ATTR_CALL))
 /* PO[C14] client_receive.get_attr_reply */
-__CPROVER_ensures((CR_FULL && xv_ctl_req_type == ctl_proto_type_get_attr_req) ==> (__CPROVER_return_value == 0 && client->is_response_pending && \
-        xv_ctl_ev[client->fd_reg_id] == EPOLLOUT && CTL_SAME(xv_ctl_all_calls) && \
-        (XV_MSG_TYPE(&client->pending_response) == ctl_proto_type_get_attr_cfm || XV_MSG_TYPE(&client->pending_response) == ctl_proto_type_get_attr_rej) && \
+__CPROVER_ensures((CR_FULL && xv_ctl_req_type == ctl_proto_type_get_attr_req) ==> (__CPROVER_return_value == 0 && CL_PEND(client) && \
+        xv_ctl_ev[CL_REG(client)] == EPOLLOUT && CTL_SAME(xv_ctl_all_calls) && \
+        (XV_MSG_TYPE(CL_MSG(client)) == ctl_proto_type_get_attr_cfm || XV_MSG_TYPE(CL_MSG(client)) == ctl_proto_type_get_attr_rej) && \
         ((xv_ctl_req_cstr && !xv_ctl_req_key) ==> (CTL_INC(xv_ctl_get_calls) && (xv_ctl_get_rv >= 0 \
-            ? (XV_MSG_TYPE(&client->pending_response) == ctl_proto_type_get_attr_cfm && XV_ATTR_LEN(XV_MSG_ATTRP(&client->pending_response)) == (size_t)xv_ctl_get_rv && \
-               XV_ATTR_TYPE(XV_MSG_ATTRP(&client->pending_response)) == xv_ctl_get_type && \
-               (xv_ctl_j < (size_t)xv_ctl_get_rv ==> XV_ATTR_VAL(XV_MSG_ATTRP(&client->pending_response), xv_ctl_j) == xv_ctl_get_j)) \
-            : (XV_MSG_TYPE(&client->pending_response) == ctl_proto_type_get_attr_rej && XV_MSG_REJ_ERRNO(&client->pending_response) == xv_ctl_get_errno)))) && \
-        (!xv_ctl_req_cstr ==> (XV_MSG_TYPE(&client->pending_response) == ctl_proto_type_get_attr_rej && CTL_SAME(xv_ctl_get_calls)))))
+            ? (XV_MSG_TYPE(CL_MSG(client)) == ctl_proto_type_get_attr_cfm && XV_ATTR_LEN(XV_MSG_ATTRP(CL_MSG(client))) == (size_t)xv_ctl_get_rv && \
+               XV_ATTR_TYPE(XV_MSG_ATTRP(CL_MSG(client))) == xv_ctl_get_type && \
+               (xv_ctl_j < (size_t)xv_ctl_get_rv ==> XV_ATTR_VAL(XV_MSG_ATTRP(CL_MSG(client)), xv_ctl_j) == xv_ctl_get_j)) \
+            : (XV_MSG_TYPE(CL_MSG(client)) == ctl_proto_type_get_attr_rej && XV_MSG_REJ_ERRNO(CL_MSG(client)) == xv_ctl_get_errno)))) && \
+        (!xv_ctl_req_cstr ==> (XV_MSG_TYPE(CL_MSG(client)) == ctl_proto_type_get_attr_rej && CTL_SAME(xv_ctl_get_calls)))))
 /* PO[C14] client_receive.tls_key_never_disclosed */
 __CPROVER_ensures((CR_FULL && xv_ctl_req_type == ctl_proto_type_get_attr_req && xv_ctl_req_key) ==> \
-        (XV_MSG_TYPE(&client->pending_response) == ctl_proto_type_get_attr_rej && XV_MSG_REJ_ERRNO(&client->pending_response) == EACCES && \
-         (xv_ctl_j < CTL_ATTR_VALUE_MAX ==> XV_ATTR_VAL(XV_MSG_ATTRP(&client->pending_response), xv_ctl_j) == 0)))
+        (XV_MSG_TYPE(CL_MSG(client)) == ctl_proto_type_get_attr_rej && XV_MSG_REJ_ERRNO(CL_MSG(client)) == EACCES && \
+         (xv_ctl_j < CTL_ATTR_VALUE_MAX ==> XV_ATTR_VAL(XV_MSG_ATTRP(CL_MSG(client)), xv_ctl_j) == 0)))
 /* PO[C14] client_receive.get_all_reply */
-__CPROVER_ensures((CR_FULL && xv_ctl_req_type == ctl_proto_type_get_all_attr_req) ==> (__CPROVER_return_value == 0 && client->is_response_pending && \
-        xv_ctl_ev[client->fd_reg_id] == EPOLLOUT && CTL_SAME(xv_ctl_get_calls) && CTL_INC(xv_ctl_all_calls) && \
-        XV_MSG_TYPE(&client->pending_response) == ctl_proto_type_get_all_attr_cfm && \
-        XV_CFM_LEN(XV_MSG_CFMP(&client->pending_response)) == (xv_ctl_all_n < CTL_PROTO_MAX_ATTRS ? xv_ctl_all_n : CTL_PROTO_MAX_ATTRS) && \
-        XV_CTL_ALL_ENTRY_I(XV_MSG_CFMP(&client->pending_response))))
+__CPROVER_ensures((CR_FULL && xv_ctl_req_type == ctl_proto_type_get_all_attr_req) ==> (__CPROVER_return_value == 0 && CL_PEND(client) && \
+        xv_ctl_ev[CL_REG(client)] == EPOLLOUT && CTL_SAME(xv_ctl_get_calls) && CTL_INC(xv_ctl_all_calls) && \
+        XV_MSG_TYPE(CL_MSG(client)) == ctl_proto_type_get_all_attr_cfm && \
+        XV_CFM_LEN(XV_MSG_CFMP(CL_MSG(client))) == (xv_ctl_all_n < CTL_PROTO_MAX_ATTRS ? xv_ctl_all_n : CTL_PROTO_MAX_ATTRS) && \
+        XV_CTL_ALL_ENTRY_I(XV_MSG_CFMP(CL_MSG(client)))))
 ;
 
 /* ------------------------------------------------------------------ process_client: send if a reply is pending, else receive */
@@ -199,51 +216,51 @@ static int process_client(struct client *client, struct ctl *ctl)
 __CPROVER_requires(XV_CTL_Z_LO)
 __CPROVER_requires(XV_CTL_Z_HI)
 __CPROVER_requires(CTL_MEM(ctl) && CTL_INV(ctl) && CTL_SESSION(client, ctl) && CTL_FOREIGN(ctl))
-__CPROVER_assigns(CTL_EP_GHOSTS, CS_GHOSTS, CR_GHOSTS, client->is_response_pending, __CPROVER_object_upto(&client->pending_response, XV_CTL_SIZEOF(client->pending_response)))
+__CPROVER_assigns(CTL_EP_GHOSTS, CS_GHOSTS, CR_GHOSTS, CL_PEND(client), __CPROVER_object_upto(CL_MSG(client), XV_CTL_SIZEOF(struct ctl_proto_msg)))
 __CPROVER_ensures((__CPROVER_return_value == 0 || __CPROVER_return_value == -1) && CTL_INV(ctl) && CTL_FOREIGN(ctl))
 /* PO[C14] process_client.one_step_per_session */
-__CPROVER_ensures(__CPROVER_old(client->is_response_pending) \
-        ? (CTL_INC(xv_ctl_send_calls) && CTL_SAME(xv_ctl_recv_calls) && CR_NO_ATTR_CALL && xv_ctl_send_buf == &client->pending_response) \
-        : (CTL_SAME(xv_ctl_send_calls) && xv_ctl_recv_calls <= __CPROVER_old(xv_ctl_recv_calls) + 1))
+__CPROVER_ensures(__CPROVER_old(CL_PEND(client)) \
+        ? (CTL_INC(xv_ctl_send_calls) && CTL_SAME(xv_ctl_recv_calls) && CR_NO_ATTR_CALL && xv_ctl_send_buf == CL_MSG(client)) \
+        : (CTL_SAME(xv_ctl_send_calls) && (CTL_SAME(xv_ctl_recv_calls) || CTL_INC(xv_ctl_recv_calls))))
 ;
 
 /* ------------------------------------------------------------------ accept_client: room for one more session */
 #define AC_GHOSTS xv_ctl_rd, xv_ctl_acc
-#define AC_NEW(ctl) CTL_C(ctl, __CPROVER_old((ctl)->num_clients))
+#define AC_NEW(ctl) CTL_CP(ctl, __CPROVER_old(CTL_NUM(ctl)))
 static void accept_client(struct ctl *ctl)
 __CPROVER_requires(XV_CTL_Z_LO)
 __CPROVER_requires(XV_CTL_Z_HI)
-__CPROVER_requires(CTL_MEM(ctl) && CTL_INV(ctl) && CTL_FOREIGN(ctl) && ctl->num_clients < MAX_CLIENTS)
-__CPROVER_assigns(CTL_EP_GHOSTS, AC_GHOSTS, ctl->num_clients)
-__CPROVER_assigns(CTL_C(ctl, ctl->num_clients).fd, CTL_C(ctl, ctl->num_clients).fd_reg_id, CTL_C(ctl, ctl->num_clients).is_response_pending)
+__CPROVER_requires(CTL_MEM(ctl) && CTL_INV(ctl) && CTL_FOREIGN(ctl) && CTL_NUM(ctl) < MAX_CLIENTS)
+__CPROVER_assigns(CTL_EP_GHOSTS, AC_GHOSTS, CTL_NUM(ctl))
+__CPROVER_assigns(CL_FD(CTL_CP(ctl, CTL_NUM(ctl))), CL_REG(CTL_CP(ctl, CTL_NUM(ctl))), CL_PEND(CTL_CP(ctl, CTL_NUM(ctl))))
 __CPROVER_ensures(CTL_INV(ctl) && CTL_FOREIGN(ctl) && CTL_INC(xv_ctl_readable_calls))
 /* PO[C14] accept_client.table_bound */
 __CPROVER_ensures((xv_ctl_readable && xv_ctl_accept_rc >= 0) \
-        ? (ctl->num_clients == __CPROVER_old(ctl->num_clients) + 1 && ctl->num_clients <= MAX_CLIENTS && AC_NEW(ctl).fd == xv_ctl_accept_rc && \
-           !AC_NEW(ctl).is_response_pending && xv_ctl_ev[AC_NEW(ctl).fd_reg_id] == EPOLLIN && \
-           (ctl->num_clients == MAX_CLIENTS ==> xv_ctl_ev[ctl->server_fd_reg_id] == 0)) \
-        : (CTL_SAME(ctl->num_clients) && CTL_SAME(xv_ctl_ep_ops)))
+        ? (CTL_NUM(ctl) == __CPROVER_old(CTL_NUM(ctl)) + 1 && CTL_NUM(ctl) <= MAX_CLIENTS && CL_FD(AC_NEW(ctl)) == xv_ctl_accept_rc && \
+           !CL_PEND(AC_NEW(ctl)) && xv_ctl_ev[CL_REG(AC_NEW(ctl))] == EPOLLIN && \
+           (CTL_NUM(ctl) == MAX_CLIENTS ==> xv_ctl_ev[CTL_SREG(ctl)] == 0)) \
+        : (CTL_SAME(CTL_NUM(ctl)) && CTL_SAME(xv_ctl_ep_ops)))
 ;
 
 /* ------------------------------------------------------------------ remove_client: close one session, keep the other intact */
 #define RC_GHOSTS xv_ctl_cls
-#define RC_OTHER(ctl, idx) CTL_C(ctl, 1 - (idx))
+#define RC_OTHER(ctl, idx) CTL_CP(ctl, 1 - (idx))
 static void remove_client(struct ctl *ctl, int client_idx)
 __CPROVER_requires(XV_CTL_Z_LO)
 __CPROVER_requires(XV_CTL_Z_HI)
-__CPROVER_requires(CTL_MEM(ctl) && CTL_INV(ctl) && CTL_FOREIGN(ctl) && client_idx >= 0 && client_idx < ctl->num_clients)
-__CPROVER_assigns(CTL_EP_GHOSTS, RC_GHOSTS, ctl->num_clients, __CPROVER_object_upto(&CTL_C(ctl, 0), XV_CTL_SIZEOF(struct client)))
+__CPROVER_requires(CTL_MEM(ctl) && CTL_INV(ctl) && CTL_FOREIGN(ctl) && client_idx >= 0 && client_idx < CTL_NUM(ctl))
+__CPROVER_assigns(CTL_EP_GHOSTS, RC_GHOSTS, CTL_NUM(ctl), __CPROVER_object_upto(CTL_CP(ctl, 0), XV_CTL_SIZEOF(struct client)))
 __CPROVER_ensures(CTL_INV(ctl) && CTL_FOREIGN(ctl) && CTL_HDR_SAME(ctl))
 /* PO[C14] remove_client.session_closed */
-__CPROVER_ensures(ctl->num_clients == __CPROVER_old(ctl->num_clients) - 1 && CTL_INC(xv_ctl_close_calls) && \
-                  xv_ctl_closed_fd == __CPROVER_old(CTL_C(ctl, client_idx).fd) && !xv_ctl_live[__CPROVER_old(CTL_C(ctl, client_idx).fd_reg_id)])
+__CPROVER_ensures(CTL_NUM(ctl) == __CPROVER_old(CTL_NUM(ctl)) - 1 && CTL_INC(xv_ctl_close_calls) && \
+                  xv_ctl_closed_fd == __CPROVER_old(CL_FD(CTL_CP(ctl, client_idx))) && !xv_ctl_live[__CPROVER_old(CL_REG(CTL_CP(ctl, client_idx)))])
 /* the session that stays is slot 0 afterwards and is what it was: descriptor, registration, pending flag, and (byte at the
  * arbitrary offset xv_mc of its struct client, i.e.) its pending reply */
 /* PO[C14] remove_client.other_session_intact */
-__CPROVER_ensures(ctl->num_clients == 1 ==> (CTL_C(ctl, 0).fd == __CPROVER_old(RC_OTHER(ctl, client_idx).fd) && \
-        CTL_C(ctl, 0).fd_reg_id == __CPROVER_old(RC_OTHER(ctl, client_idx).fd_reg_id) && \
-        CTL_C(ctl, 0).is_response_pending == __CPROVER_old(RC_OTHER(ctl, client_idx).is_response_pending) && \
-        (xv_mc < sizeof(struct client) ==> ((const uint8_t *)&CTL_C(ctl, 0))[xv_mc] == __CPROVER_old(((const uint8_t *)&RC_OTHER(ctl, client_idx))[xv_mc]))))
+__CPROVER_ensures(CTL_NUM(ctl) == 1 ==> (CL_FD(CTL_CP(ctl, 0)) == __CPROVER_old(CL_FD(RC_OTHER(ctl, client_idx))) && \
+        CL_REG(CTL_CP(ctl, 0)) == __CPROVER_old(CL_REG(RC_OTHER(ctl, client_idx))) && \
+        CL_PEND(CTL_CP(ctl, 0)) == __CPROVER_old(CL_PEND(RC_OTHER(ctl, client_idx))) && \
+        (xv_mc < sizeof(struct client) ==> (CTL_CP(ctl, 0))[xv_mc] == __CPROVER_old(RC_OTHER(ctl, client_idx)[xv_mc]))))
 ;
 
 /* ------------------------------------------------------------------ ctl_process (public, self-recursive)
@@ -254,9 +271,9 @@ __CPROVER_requires(XV_CTL_Z_LO)
 __CPROVER_requires(XV_CTL_Z_HI)
 __CPROVER_requires(CTL_MEM(ctl) && CTL_INV(ctl) && CTL_FOREIGN(ctl))
 __CPROVER_assigns(CTL_EP_GHOSTS, CS_GHOSTS, CR_GHOSTS, AC_GHOSTS, RC_GHOSTS, \
-                  ctl->num_clients, __CPROVER_object_upto(&ctl->clients, XV_CTL_SIZEOF(ctl->clients)))
+                  CTL_NUM(ctl), __CPROVER_object_upto(CTL_CP(ctl, 0), XV_CTL_SIZEOF(struct client[MAX_CLIENTS])))
 /* PO[C14] ctl_process.table_invariant */
-__CPROVER_ensures(CTL_INV(ctl) && ctl->num_clients >= 0 && ctl->num_clients <= MAX_CLIENTS)
+__CPROVER_ensures(CTL_INV(ctl) && CTL_NUM(ctl) >= 0 && CTL_NUM(ctl) <= MAX_CLIENTS)
 /* PO[C14] ctl_process.errno_restored */
 __CPROVER_ensures(xv_errno == __CPROVER_old(xv_errno))
 /* PO[C14] ctl_process.data_path_registrations_untouched */
@@ -274,8 +291,8 @@ __CPROVER_requires(__CPROVER_is_fresh(socket, sizeof(*socket)) && socket->xpoll 
 __CPROVER_assigns(CTL_EP_GHOSTS, xv_ctl_acc, xv_ctl_cls, xv_ctl_unl)
 __CPROVER_ensures(__CPROVER_return_value == NULL || __CPROVER_is_fresh(__CPROVER_return_value, XV_CTL_SIZEOF(struct ctl)))
 /* PO[C14] ctl_create.empty_table_registered */
-__CPROVER_ensures(__CPROVER_return_value != NULL ==> (__CPROVER_return_value->socket == socket && __CPROVER_return_value->num_clients == 0 && \
-        CTL_INV(__CPROVER_return_value) && CTL_INC(xv_ctl_ep_ops) && xv_ctl_ev[__CPROVER_return_value->server_fd_reg_id] == EPOLLIN && \
+__CPROVER_ensures(__CPROVER_return_value != NULL ==> (CTL_SOCK(__CPROVER_return_value) == socket && CTL_NUM(__CPROVER_return_value) == 0 && \
+        CTL_INV(__CPROVER_return_value) && CTL_INC(xv_ctl_ep_ops) && xv_ctl_ev[CTL_SREG(__CPROVER_return_value)] == EPOLLIN && \
         CTL_INC(xv_ctl_fds_made) && CTL_SAME(xv_ctl_close_calls) && CTL_FOREIGN(__CPROVER_return_value)))
 /* failure: nothing registered, and as many descriptors closed as opened */
 __CPROVER_ensures(__CPROVER_return_value == NULL ==> (CTL_SAME(xv_ctl_ep_ops) && CTL_FOREIGN0 && \
@@ -290,18 +307,19 @@ void ctl_destroy(struct ctl *ctl, bool owner)
 __CPROVER_requires(XV_CTL_Z_LO)
 __CPROVER_requires(XV_CTL_Z_HI)
 __CPROVER_requires(ctl == NULL || (CTL_MEM(ctl) && CTL_INV(ctl) && CTL_FOREIGN(ctl)))
-__CPROVER_assigns(ctl != NULL: CTL_EP_GHOSTS, RC_GHOSTS, xv_ctl_unl, ctl->num_clients, __CPROVER_object_upto(&CTL_C(ctl, 0), XV_CTL_SIZEOF(struct client)))
+__CPROVER_assigns(ctl != NULL: CTL_EP_GHOSTS, RC_GHOSTS, xv_ctl_unl, CTL_NUM(ctl), __CPROVER_object_upto(CTL_CP(ctl, 0), XV_CTL_SIZEOF(struct client)))
 __CPROVER_frees(ctl)
 /* PO[C14] ctl_destroy.errno_restored */
 __CPROVER_ensures(xv_errno == __CPROVER_old(xv_errno))
 __CPROVER_ensures(ctl != NULL ==> __CPROVER_was_freed(ctl))
 /* every descriptor of the control interface is closed: one per session and the listening one */
 /* PO[C14] ctl_destroy.descriptors_closed */
-__CPROVER_ensures(ctl != NULL ==> (xv_ctl_close_calls == __CPROVER_old(xv_ctl_close_calls) + (unsigned long)__CPROVER_old(ctl->num_clients) + 1 && CTL_FOREIGN0))
+__CPROVER_ensures(ctl != NULL ==> (xv_ctl_close_calls == __CPROVER_old(xv_ctl_close_calls) + (unsigned long)__CPROVER_old(CTL_NUM(ctl)) + 1 && CTL_FOREIGN0))
 /* PO[C14] ctl_destroy.control_file_removed_by_owner_only */
-__CPROVER_ensures((ctl != NULL && owner && xv_ctl_gsn_ok) ? (CTL_INC(xv_ctl_unlink_calls) && xv_ctl_unlink_p == xv_ctl_bound_p) : CTL_SAME(xv_ctl_unlink_calls))
+__CPROVER_ensures((ctl != NULL && owner && xv_ctl_gsn_ok) \
+        ? (CTL_INC(xv_ctl_unlink_calls) && (xv_ctl_p < UNIX_PATH_MAX ==> xv_ctl_unlink_p == xv_ctl_bound_p)) : CTL_SAME(xv_ctl_unlink_calls))
 /* PO[C14] ctl_destroy.owner_deregisters */
-__CPROVER_ensures((ctl != NULL && owner) ==> !xv_ctl_live[__CPROVER_old(ctl->server_fd_reg_id)])
+__CPROVER_ensures((ctl != NULL && owner) ==> !xv_ctl_live[__CPROVER_old(CTL_SREG(ctl))])
 /* PO[C14,C08] ctl_destroy.not_owner_leaves_epoll_alone */
 __CPROVER_ensures((ctl == NULL || !owner) ==> CTL_SAME(xv_ctl_ep_ops))
 ;
